@@ -16,7 +16,7 @@ RULE = ("file: push of a real file / BytesIO with sizes around the chunk and max
         "non-trivial = at least one DATA record; distinct = distinct (kind, impl, size class, maxdata, source, callback, path length) signatures")
 ASSUMPTIONS = ["the `mkdir` shell stream that push opens first for a directory is tolerated, not demanded", "sub-directories of a pushed directory are not transferred (the statement speaks of regular files directly inside)"]
 SHARDS = {"quick": 8, "thorough": 16}
-TIME_BUDGET = {"quick": 60, "thorough": 600}
+TIME_BUDGET = {"quick": 300, "thorough": 1800}
 FLOORS = {"quick": {"pushes": 500, "data_records": 2000, "dir_pushes": 40, "cbdiff_triples": 80, "distinct": 150}, "thorough": {"pushes": 6000, "dir_pushes": 400, "cbdiff_triples": 300}}
 
 
